@@ -902,9 +902,68 @@ func runC04(c *Cfg) {
 	}
 	exprs = append(exprs, corpus...)
 
+	// Exhaustive family "unmarked disjunction with marked nested disjunctions and plain
+	// siblings, unified with a flat disjunction" (both tiers, both operand orders): outer
+	// unmarked disjunction of 2-3 terms, one or two of them parenthesised disjunctions over
+	// {1,2,3} with exactly one marked member, plain siblings before / between / after,
+	// unified with a flat disjunction over the same atoms carrying 0-1 marks.  This is the
+	// region governed by the unroll branch of crossProduct and the hasNonMaybe demotion
+	// (e.g. `((*1|2) | 3) & (*3 | 1)` must stay ambiguous).
+	{
+		at := []*c4Expr{A("1"), A("2"), A("3")}
+		var nested, flats []*c4Expr
+		seqs := [][]int{{0, 1}, {0, 2}, {1, 2}, {0, 1, 2}}
+		for _, sq := range seqs {
+			for mk := -1; mk < len(sq); mk++ {
+				e := &c4Expr{kind: 2}
+				for i, a := range sq {
+					e.terms = append(e.terms, c4Term{i == mk, at[a]})
+				}
+				flats = append(flats, e) // 0-1 marks
+				if mk >= 0 {
+					nested = append(nested, e) // exactly one marked member
+				}
+			}
+		}
+		var plain []c4Term
+		for _, a := range at {
+			plain = append(plain, T(a))
+		}
+		var nterms []c4Term
+		for _, n := range nested {
+			nterms = append(nterms, T(n))
+		}
+		var outers []*c4Expr
+		var build func(terms []c4Term, nNested int, width int)
+		build = func(terms []c4Term, nNested int, width int) {
+			if len(terms) == width {
+				if nNested >= 1 && nNested <= 2 {
+					outers = append(outers, &c4Expr{kind: 2, terms: append([]c4Term{}, terms...)})
+				}
+				return
+			}
+			for _, t := range plain {
+				build(append(terms, t), nNested, width)
+			}
+			if nNested < 2 {
+				for _, t := range nterms {
+					build(append(terms, t), nNested+1, width)
+				}
+			}
+		}
+		build(nil, 0, 2)
+		build(nil, 0, 3)
+		for _, o := range outers {
+			for _, f := range flats {
+				exprs = append(exprs, And(o, f), And(f, o))
+			}
+		}
+		c.Count(fmt.Sprintf("family-nested-marked-with-siblings-%d", 2*len(outers)*len(flats)))
+	}
+
 	// exhaustive layers per family
-	budget2 := c.Pick(15000, 220000) // level-2 expressions kept
-	budgetR := c.Pick(6000, 120000) // random deeper ones
+	budget2 := c.Pick(9000, 220000) // level-2 expressions kept
+	budgetR := c.Pick(5000, 120000) // random deeper ones
 	if c.Focus {
 		budget2, budgetR = c.Pick(30000, 220000), c.Pick(12000, 120000)
 	}
